@@ -223,7 +223,8 @@ func c05Run(env *verifsim.Env, raw json.RawMessage) *verifsim.Violation {
 	// what reaches storage, in storage order: the sequence carried by every applied document write
 	var obsMu sync.Mutex
 	storedSeqs := map[string][]uint64{}
-	storedMeta := map[string][]bool{} // metadata-only rewrite (keeps revision and sequence)
+	storedMeta := map[string][]bool{}  // metadata-only rewrite (keeps revision and sequence)
+	resurrections := map[string]bool{} // revisions stored by a resurrection write
 	n1.node.Observe = func(o simstore.OpInfo) {
 		if o.Class != "doc" || o.Err != nil || o.Xattrs == nil {
 			return
@@ -234,11 +235,17 @@ func c05Run(env *verifsim.Env, raw json.RawMessage) *verifsim.Violation {
 		}
 		var sd struct {
 			Sequence uint64 `json:"sequence"`
+			Rev      struct {
+				Rev string `json:"rev"`
+			} `json:"rev"`
 		}
 		if json.Unmarshal(raw, &sd) == nil && sd.Sequence != 0 {
 			obsMu.Lock()
 			storedSeqs[o.Key] = append(storedSeqs[o.Key], sd.Sequence)
 			storedMeta[o.Key] = append(storedMeta[o.Key], o.Op == "UpdateXattrs")
+			if o.Op == "WriteResurrectionWithXattrs" {
+				resurrections[sd.Rev.Rev] = true // stored by the insert that does not compare-and-swap
+			}
 			obsMu.Unlock()
 		}
 	}
@@ -416,7 +423,10 @@ func c05Run(env *verifsim.Env, raw json.RawMessage) *verifsim.Violation {
 						}
 					}
 					for _, b := range docAcks {
-						if b.Rev != a.Rev && !b.Deleted && deletedRevs[b.Parent] && b.CallEv < a.RetEv && a.CallEv < b.RetEv {
+						obsMu.Lock()
+						resurrects := deletedRevs[b.Parent] || resurrections[b.Rev]
+						obsMu.Unlock()
+						if b.Rev != a.Rev && !b.Deleted && resurrects && b.CallEv < a.RetEv && a.CallEv < b.RetEv {
 							vio.Key = "overwritten-by-concurrent-resurrection"
 						}
 					}
@@ -425,6 +435,17 @@ func c05Run(env *verifsim.Env, raw json.RawMessage) *verifsim.Violation {
 				// an acknowledged delete is a tombstone revision, an acknowledged edit is not
 				if ri := doc.History[a.Rev]; ri != nil && ri.Deleted != a.Deleted {
 					vio = verifsim.Vf("C05", "ack-kind", "acknowledged revision %s of %s (writer %s) was requested with deleted=%v but is stored with deleted=%v", a.Rev, id, a.Writer, a.Deleted, ri.Deleted)
+					// the recorded finding again: the acknowledged tombstone was overwritten by a concurrent resurrection write
+					// and came back only as an ancestor named in a later pushed revision's history (which does not say it was a
+					// tombstone)
+					for _, b := range docAcks {
+						obsMu.Lock()
+						resurrects := resurrections[b.Rev]
+						obsMu.Unlock()
+						if b.Rev != a.Rev && !b.Deleted && resurrects && b.CallEv < a.RetEv && a.CallEv < b.RetEv {
+							vio.Key = "overwritten-by-concurrent-resurrection"
+						}
+					}
 					return
 				}
 				// (ii) strictly greater than the write it superseded
